@@ -424,6 +424,11 @@ fn stream_cases() -> Vec<Case> {
             }
         }
     }
+    // long streams of small blocks, every block different: more blocks than any queue of the multi-thread
+    // mode holds (with 16 and 64 workers the hashing thread falls a full queue behind)
+    for &(ch, bps, bs) in &[(1u8, 24u8, 32u32), (2, 16, 32), (1, 8, 32), (3, 12, 33)] {
+        v.push(Case { input: Input { ch, bps, rate: 48000, bs, full: 400, tail: 7, atoms: [19, 19, 19, 19], rel: 0, delivery: 1, seed: 0 }, cfg: Cfg::default() });
+    }
     v
 }
 
@@ -431,13 +436,17 @@ fn check_stream(rep: &Report, local: &mut Local, case: &Case) {
     local.evals += 1;
     let samples = case.input.samples();
     let mut outs: Vec<(String, Vec<u8>)> = Vec::new();
+    let long = case.input.full >= 100;
     for delivery in [1u8, 2] {
-        for mode in [Mode::St, Mode::Mt, Mode::Frame] {
+        for (mode, workers) in [(Mode::St, 2u8), (Mode::Mt, 2), (Mode::Frame, 2), (Mode::Mt, 16), (Mode::Mt, 64)] {
+            if workers > 2 && !long {
+                continue;
+            }
             let mut c = case.clone();
             c.input.delivery = delivery;
-            c.cfg.workers = 2;
+            c.cfg.workers = workers;
             match subject::encode_bytes(&c, &samples, mode) {
-                Ok((_, b)) => outs.push((format!("{}/{}", mode.name(), if delivery == 1 { "ints" } else { "bytes" }), b)),
+                Ok((_, b)) => outs.push((format!("{}{}/{}", mode.name(), if workers > 2 { format!("(workers {workers})") } else { String::new() }, if delivery == 1 { "ints" } else { "bytes" }), b)),
                 Err(e) => rep.violation_x(mode == Mode::Mt, &format!("encode_fail|{}", e.class()), &format!("{}: {}", mode.name(), e.describe()), c.json(), c.weight()),
             }
         }
@@ -530,5 +539,5 @@ pub fn run(args: &Args, rep: &Arc<Report>) {
     );
     rep.extra("fill_cases", json!(n));
     rep.extra("stream_cases", json!(m));
-    rep.set_rule("fill level: channels 1..=8 x (width,bytes/sample){(8,1),(12,2),(16,2),(20,3),(24,3),(32,4)} x capacity{32,33,64,100(,192)} x EVERY fill length 0..=capacity applied after a full fill x patterns{ramp through both extremes, min/max alternation, LCG}: FrameBuf contents (whole buffer, both paths; filled part vs input), filled size, Context digest (vs the harness's LE serialisation), sample count, frame number, and the verbatim-coded frame from each buffer decoded by the reference decoder; sequence level: on the pair (FrameBuf, Context) every fill sequence of length 1..=3 (thorough: 4) over the block lengths {0, 1, 2, cap/2, cap-1, cap, cap+1 (refused)} x EVERY assignment of the two deliveries to the steps, channels 1..=8 x 6 widths x capacity {32,33}, judged after every step against a reference model (buffer = last accepted block, context = all accepted blocks; a refused block changes nothing, an empty one is no frame; with at most one FrameBuf::resize to a larger / smaller buffer before any step, after which the capacity is the new one and the contents are unspecified until the next accepted block) and at the end through the frame encoded from the buffer; stream level: channels 1..=8 x 5 widths x 4 shapes x 3 atoms: integer source vs byte source x {ST, MT, frame-level} byte-identical; non-trivial = a partial fill (0 < len < capacity) or a stream comparison");
+    rep.set_rule("fill level: channels 1..=8 x (width,bytes/sample){(8,1),(12,2),(16,2),(20,3),(24,3),(32,4)} x capacity{32,33,64,100(,192)} x EVERY fill length 0..=capacity applied after a full fill x patterns{ramp through both extremes, min/max alternation, LCG}: FrameBuf contents (whole buffer, both paths; filled part vs input), filled size, Context digest (vs the harness's LE serialisation), sample count, frame number, and the verbatim-coded frame from each buffer decoded by the reference decoder; sequence level: on the pair (FrameBuf, Context) every fill sequence of length 1..=3 (thorough: 4) over the block lengths {0, 1, 2, cap/2, cap-1, cap, cap+1 (refused)} x EVERY assignment of the two deliveries to the steps, channels 1..=8 x 6 widths x capacity {32,33}, judged after every step against a reference model (buffer = last accepted block, context = all accepted blocks; a refused block changes nothing, an empty one is no frame; with at most one FrameBuf::resize to a larger / smaller buffer before any step, after which the capacity is the new one and the contents are unspecified until the next accepted block) and at the end through the frame encoded from the buffer; stream level: channels 1..=8 x 5 widths x 4 shapes x 3 atoms, plus four streams of 400 small blocks that all differ (multi-thread mode also with 16 and 64 workers: real threads, one OS schedule per encode): integer source vs byte source x {ST, MT, frame-level} byte-identical; non-trivial = a partial fill (0 < len < capacity) or a stream comparison");
 }
